@@ -129,6 +129,19 @@ def _xkey_spec(op):
     return "err", concat_eq
 
 
+def _early_eof(parts):
+    """a consumer that stops at the first EOF flag would miss data"""
+    if parts in ("_", ""):
+        return False
+    seen = False
+    for p in parts.split(","):
+        d, _, e = p.partition("/")
+        if seen and d != "-":
+            return True
+        seen = seen or e == "1"
+    return False
+
+
 def _classify(op, impl, model):
     """is this implementation/model difference by itself a counterexample to the property?"""
     verb = op.split(" ", 1)[0]
@@ -139,6 +152,8 @@ def _classify(op, impl, model):
     fi, fm = _fields(impl), _fields(_strip(model))
     if fi.get("leak") == "1":
         return True, "the source handle was left open (the file stays locked on memfs)"
+    if fi.get("r") == "ok" and _early_eof(fi.get("parts", "_")):
+        return True, "the decrypting reader reported EOF before it had delivered all data"
     if verb == "ns":
         return True, "a Filespace method is not passed to the underlying filespace exactly"
     if verb == "xkey":
@@ -221,7 +236,7 @@ def run(ctx):
     failed = ctx.lean_obligations()
     go = ctx.build_go("enc")
     model = ctx.build_model("m_enc")
-    n_rand = ctx.pick(30000, 400000)
+    n_rand = ctx.pick(60000, 1000000)
     shards = ctx.pick(8, 14)
     ctx.rule = ("corpus/C05 first; sweeps: every truncation length and every byte position (masks 01, 80) of a small "
                 "stored file for toy/ext:7 x both read paths, every truncation and position for the real raw/tagged "
@@ -251,6 +266,8 @@ def run(ctx):
     if rc != 0:
         ctx.fatal("generator failed: " + err[-500:])
     ops += [l.rstrip("\n") for l in open(ctx.path("gen.ops")) if l.strip()]
+    ctx.extra["sweep_ops"] = len(ops) - n_corpus - n_rand      # systematic part of the generator
+    ctx.extra["random_ops"] = n_rand
     impl = _drive_sharded(ctx, go, ops, "corr", shards)
     mod = _model(ctx, model, ops, "corr")
     ctx.log("correspondence: %d ops (%d corpus)" % (len(ops), n_corpus))
@@ -298,7 +315,9 @@ def run(ctx):
         ctx.violation("impl-vs-spec", "op %d: settings with another secret/salt (different concatenation) were not "
                                       "refused: expected %s" % (i, spec),
                       lines=[o], annotations=["spec: r=" + spec, "impl: " + a], concrete=True)
-    for i, o, a, b in mism[:4]:
+    # differences that contradict the property by themselves are reported first
+    ranked = sorted(((not _classify(o, a, b)[0], i, o, a, b) for i, o, a, b in mism[:5000]), key=lambda t: t[:2])
+    for _, i, o, a, b in ranked[:4]:
         conc, why = _classify(o, a, b)
         concrete_found |= conc
         ctx.violation("impl-vs-spec" if conc else "impl-vs-model",
